@@ -21,6 +21,14 @@
 #ifndef C01_POOL_H
 #define C01_POOL_H
 #include "vc.h"
+/* igris' member_offsetof is the classic `&((type *)0)->member`; UBSan's `null` group reports it on every
+ * dlist_entry / mcast_out and would abort each native replay before the real code runs.  Harnesses that
+ * expand these macros switch that one group off (replay only); ASan and the other UBSan groups stay on. */
+#ifdef REPLAY
+#define C01_NO_UBSAN_NULL __attribute__((no_sanitize("null")))
+#else
+#define C01_NO_UBSAN_NULL
+#endif
 #include <igris/datastruct/dlist.h>
 
 #ifndef C01_K
